@@ -140,12 +140,14 @@ OpRecord Session::exec(const Op& op, int op_index)
             {
                 tainted = false;
                 computes_since_init = 0;
+                compute_attempts_since_init = 0;
             }
             break;
         }
         case OP_COMPUTE:
         {
             ctx.work_cap = work_cap_for(op.maxit);
+            compute_attempts_since_init++;
             ctx.begin_api(op.kind);
             rec.res = guarded([&]() -> long { return solver->compute(op.sel, op.maxit, (long double) op.tol, op.sort); });
             rec.restarts = ctx.restarts_in_api;
@@ -214,6 +216,7 @@ OpRecord Session::exec(const Op& op, int op_index)
         current_ctx() = &ctx;
         rec.has_snap = !rec.read_res.threw;
         rec.computes_since_init = computes_since_init;
+        rec.compute_attempts_since_init = compute_attempts_since_init;
     }
     rec.tainted_after = tainted;
     rec.events = ctx.nevents - events0;
